@@ -28,6 +28,8 @@ func TestVerifTablesReplay(t *testing.T) {
 			Hdr   [][]json.RawMessage `json:"hdr"`
 			Inter [][][]string        `json:"inter"`
 			Punct [][]json.RawMessage `json:"punct"`
+			Dates [][]json.RawMessage `json:"dates"`
+			Wrap  [][][][]string      `json:"wrapped"`
 		}
 		if json.Unmarshal(raw, &v) != nil || v.Hdr == nil {
 			return true
@@ -83,6 +85,31 @@ func TestVerifTablesReplay(t *testing.T) {
 			want := []string{cur + "2"}
 			if err != nil || strings.Join(w, "|") != strings.Join(want, "|") {
 				fail(fmt.Sprintf("%q tokenises to %q (err %v), the spec's mapping %v gives %q", src, w, err, rep, want))
+			}
+		}
+		for _, e := range v.Dates { // a line that is (or just is not) an ISO date, alone and between two words-bearing lines
+			var l []string
+			var want bool
+			json.Unmarshal(e[0], &l)
+			json.Unmarshal(e[1], &want)
+			n++
+			line := string(vtBytes(l))
+			w, _, notes, err := vtTokenize([]byte("foo bar\n"+line+"\nbaz\n"), true)
+			got := err == nil && len(notes) == 1 && notes[0] == 2 && strings.Join(w, "|") == "foo|bar|baz"
+			if got != want {
+				fail(fmt.Sprintf("the line %q: ignored as a date = %v (words %q, notices %v, err %v), spec %v", line, got, w, notes, err, want))
+			}
+		}
+		for _, row := range v.Wrap { // a listed spelling with punctuation attached: cleanupToken directly, and through the tokenizer
+			for _, e := range row {
+				n++
+				raw, want := string(vtBytes(e[0])), strings.Join(e[1], "")
+				if got := cleanupToken(1, raw, true); got != want {
+					fail(fmt.Sprintf("cleanupToken(%q, normalize) = %q, spec %q", raw, got, want))
+				}
+				if w, _, _, err := vtTokenize([]byte("foo "+raw+" bar\n"), true); err != nil || len(w) != 3 || w[1] != want {
+					fail(fmt.Sprintf("%q tokenises to %q (err %v), spec: foo %s bar", "foo "+raw+" bar", w, err, want))
+				}
 			}
 		}
 		return true
